@@ -591,6 +591,52 @@ def falsify(ctx, hints):
             add(f"raises:{type(e).__name__}", f"public operation raises {type(e).__name__}: {e}"[:200], inp)
         if len(fails) > 30:
             break
+    # linear interpolation over in-sample gaps of two or more periods; moving windows longer than the series
+    for it2 in range(ctx.scale(10, 200)):
+        freq = rng.choice([1, 4, 12, 0])
+        base = sc.rand_series_spec(rng, freq=freq, nv=1, maxlen=4, allow_empty=False, p_nan=0.0)
+        n = rng.randint(5, 9)
+        vals = [float(rng.randint(-8, 12)) for _ in range(n)]
+        g0 = rng.randint(1, n - 4); glen = rng.randint(2, 3)
+        rows = [[v] for v in vals]
+        for j in range(g0, g0 + glen):
+            rows[j] = [float("nan")]
+        spec = {"freq": freq, "start": base["start"], "nv": 1, "rows": rows}
+        try:
+            x = sc.mk_series(spec)
+            y = ir.fill_missing(x, "linear")
+            got = np.asarray(y.get_data(ir.Span(x.start, x.end)), dtype=float)[:, 0]
+            a, b = vals[g0 - 1], vals[g0 + glen]
+            want = list(vals)
+            for j in range(g0, g0 + glen):
+                want[j] = a + (b - a) * (j - (g0 - 1)) / (glen + 1)
+            info["map_checks"] += 1
+            if not np.allclose(got, want, rtol=1e-12, atol=1e-12):
+                add("fill:linear:gap", "fill_missing('linear') does not interpolate period by period inside a gap of several periods",
+                    {"series": spec}, got.tolist(), want, "irispie.fill_missing(x, 'linear')")
+            # a moving window longer than the series has no complete window: the result is the empty series
+            short = sc.mk_series({"freq": freq, "start": base["start"], "nv": 1, "rows": [[1.0], [2.0], [3.0]]})
+            for nm in ("mov_sum", "mov_avg", "mov_prod"):
+                z = getattr(ir, nm)(short, -5)
+                info["map_checks"] += 1
+                if z.start is not None or np.asarray(z.data).shape[0] != 0:
+                    add(f"moving:{nm}:short-series", f"{nm} with a window longer than the series does not give the empty series",
+                        {"rows": [[1.0], [2.0], [3.0]], "window": -5}, np.asarray(z.data).tolist(), "empty series", f"irispie.{nm}(x, -5)")
+        except Exception as e:  # noqa
+            add(f"fill-moving:raises:{type(e).__name__}", f"fill_missing/moving window raises {type(e).__name__}: {e}"[:200], {"series": spec})
+    # functional forms on an EMPTY input never return or modify the input object itself
+    for nm, call in (("fill_missing", lambda e, y: ir.fill_missing(e, "constant", 1.0, [sc.mk_period(4, 8000)])),
+                     ("overlay", lambda e, y: ir.overlay(e, y)), ("underlay", lambda e, y: ir.underlay(e, y)),
+                     ("shift", lambda e, y: ir.shift(e, -1)), ("copy", lambda e, y: e.copy())):
+        try:
+            e = ir.Series(); y = sc.mk_series({"freq": 4, "start": 8000, "nv": 1, "rows": [[1.0], [2.0]]})
+            out = call(e, y)
+            info["isolation_checks"] += 1
+            if out is e or e.start is not None or np.asarray(e.data).shape[0] != 0:
+                add(f"isolation:{nm}:empty-input", f"functional form {nm} applied to an empty series returns or modifies its input",
+                    {"input": "Series()"}, "input object returned/modified", "a new object; input still empty", f"irispie.{nm}(Series(), ...)")
+        except Exception as ex:  # noqa
+            add(f"empty:{nm}:functional:raises", f"{nm} on an empty series raises {type(ex).__name__}: {ex}"[:200], {"input": "Series()"})
     # empty series and non-overlapping operands
     for nv1 in (1, 2):
         e1, e2 = ir.Series(num_variants=nv1), ir.Series(num_variants=1)
